@@ -133,20 +133,26 @@ def rules(ctx: Ctx) -> None:
            f"otherwise same-named columns of different sub-queries collapse into one node with two owners")
 
     # ---- R06.5 / R06.6 imported ----------------------------------------------------------------------------------
-    from . import c03, c11
+    from .common import import_rules as _imp
 
-    sub = Ctx(ctx.pid, ctx.tier, prog, ctx.repo)
-    c03.rules(sub)
-    for o in sub.obligations:
-        if o.rule == "R03.3":
-            ctx.obligations.append(replace(o, rule="R06.5"))
-    sub2 = Ctx(ctx.pid, ctx.tier, prog, ctx.repo)
-    c11.rules(sub2)
-    for o in sub2.obligations:
-        if o.rule == "R11.3":
-            ctx.obligations.append(replace(o, rule="R06.6"))
+    _imp(ctx, "C03", {"R03.3": "R06.5"})
+    _imp(ctx, "C11", {"R11.3": "R06.6"})
     # R06.7: the table-level answer the column paths are compared with: every table with lineage is source, intermediate or target
     # (a path may end in an intermediate table only if the intermediate set is not emptied by unrelated tags) (= R03.1)
     from .common import import_rules
 
     import_rules(ctx, "C03", {"R03.1": "R06.7"})
+
+    # ---- R06.8 no statement reads a loop variable after its loop -----------------------------------------------------------
+    # (what is left in it is the last element in iteration order - or nothing, for an empty sequence; an owner or edge taken from it belongs to an arbitrary candidate)
+    from ..loopvar import leftover_uses
+
+    n_loops = 0
+    for f in prog.funcs.values():
+        if f.mod.name in ("sqllineage.cli", "sqllineage.drawing"):
+            continue
+        n_loops += len([1 for k in prog.walk_fn(f) if isinstance(k, ast.For)])
+        for L, use in leftover_uses(prog, f):
+            ctx.ob("R06.8", f"loop-variable-not-used-after-its-loop:{f.owner}:{use.id}", False, loc(f.mod, use),
+                   f"`{use.id}` is read after `for {u(L.target)} in {u(L.iter)[:40]}` (line {L.lineno}) ended without break: it names whichever element came last")
+    ctx.ob("R06.8", "loop-variable-not-used-after-its-loop:scanned", True, "sqllineage/", f"{n_loops} loops scanned", trivial=True)
